@@ -101,6 +101,23 @@ def run(ctx):
                         ctx.violation('C18.walkers', key, 'loop#%d' % len(walkers),
                                       'the loop at %s in %s, which runs once per name, has no constant iteration bound (%s): with up to len/11 records per packet the total work is no longer linear in the packet size'
                                       % (at, key, text), site=at, config=cfg)
+        # the measures above are read off exact integer arithmetic.  Where overflow checks are off (release) an addition that can wrap
+        # silently makes a "step of at least k" a step of possibly 0: every such addition in the validator scope must be shown not to wrap
+        if getattr(e4.an, 'wrap_obligations', False):
+            wraps = [o for o in e4.obligations() if 'wrap silently' in o.get('detail', '')]
+            bad = [o for o in wraps if o.get('status') == 'open' or (o.get('status') == 'lifted' and o.get('ctx') == DS + '::parse')]
+            seen_w = set()
+            for o in bad:
+                site_ = o['site'].split(' <= ')[0]
+                if site_ in seen_w:
+                    continue
+                seen_w.add(site_)
+                at_ = site_.split('@wrap:')[-1]
+                ctx.violation('C18.drivers', site_.split('@')[0], 'wrap@' + site_.split('@')[0].split('::')[-1],
+                              'without overflow checks the arithmetic at %s can wrap around for some packet: a cursor step computed from it can be 0 (or go backwards), '
+                              'so the loops that advance by it are not bounded by the packet length' % at_, site=at_, config=cfg)
+            ctx.instance('C18.drivers', 'release: %d additions / subtractions / multiplications in the validator scope shown not to wrap (the measures assume exact arithmetic)' % len(wraps),
+                         ok=not bad, site=facts.fn(DS + '::parse')['at'])
         if len(walkers) < 2:
             ctx.violation('C18.walkers', '<floor>', 'walker loops', 'found %d per-name loops, expected the two name walkers' % len(walkers), kind='below-floor')
         if len(drivers) < 4:
